@@ -557,7 +557,11 @@ where
                 Node::Leaf { data } => data.is_full() || right_most,
                 Node::Interior { children } => {
                     if let Some((tail, others)) = children.split_last() {
-                        others.iter().all(|n| is_packed_rec(n, false)) && is_packed_rec(tail, true)
+                        // Only a node on the right edge may have a partially filled last child or
+                        // fewer than `N` children.
+                        (right_most || children.is_full())
+                            && others.iter().all(|n| is_packed_rec(n, false))
+                            && is_packed_rec(tail, right_most)
                     } else {
                         debug_assert!(false, "empty node");
                         false
